@@ -32,8 +32,16 @@ TRUSTED = [
 ]
 ASSUME = [
     "resolvable droplet: radius >= 3 cells, width 1-2 cells (of the mean spacing), spacing anisotropy <= 1.25, centre at least "
-    "radius + 2 widths + 2 cells away from non-periodic faces; well-separated: interface gap >= 10 widths",
+    "radius + 2 widths + 2 cells away from non-periodic faces; along periodic axes the region above the lowest threshold a rule can "
+    "choose (mean or mid-level) must not span the axis, i.e. the thresholded droplet does not meet its own periodic image (cases are "
+    "redrawn from the same PRNG until this holds; evidence key redrawn_until_resolvable_along_periodic_axes; the thorough tier had "
+    "drawn a 12-cell periodic axis for a droplet of 3 cells radius and 1.8 cells width, whose mean-threshold region winds around "
+    "the axis -- it fails the recovery claim on the tree before the audit as well); well-separated: interface gap >= 10 widths",
     "position error is measured in units of the mean cell size (stricter than relative to the radius), modulo the period on periodic axes",
+    "dimension stream: along periodic axes the box is at least 2 (radius + 2 widths + 2 cells) wide when the centre is put exactly on a "
+    "face / corner (the thresholded region of every rule must not meet its own periodic image); with modes > 0 the fitted centre is "
+    "degenerate with the first-mode amplitudes: radius, width, class and count are judged, the position error is measured only; "
+    "float32 images: same tolerance 1e-4 (measured <= 2e-6)",
     "identifiability is proved for known levels (1-d from three cells; every dimension / metric from the two centres and one further point); fitted levels and identifiability from grid cells alone in d >= 2 are covered by measurement",
 ]
 RULE = ("one evaluation = one locate_droplets(refine=True) call on a rendered image; grid families cart1/cart2/cart3 (random "
@@ -41,10 +49,39 @@ RULE = ("one evaluation = one locate_droplets(refine=True) call on a rendered im
         "polar, spherical, cylindrical (periodic_z or not); 60 % of the centres forced within one radius of a periodic face of one "
         "axis or of all periodic axes (corners); image clean or "
         "affine (a in {0.25..3}, b in {-1..5}); threshold rules extrema/mean/otsu/numeric mid-level; intensities supplied, supplied+fitted, "
-        "automatic+fitted; emulsions of two droplets on 2-d grids; all non-trivial (the candidate differs from the truth); distinct by the full case")
+        "automatic+fitted; emulsions of two droplets on 1-d / 2-d / 3-d Cartesian grids and along the axis of cylinders, boxes at random "
+        "(also entirely negative) origins; dimension stream (notes/input_dimensions.md, one named recipe per case): grid geometry "
+        "(entirely negative / centred boxes, flat-wide and narrow finely sliced cylinders, dz > dr, inner radius > 0, coarser first / last "
+        "axis, exactly one periodic axis first / middle / last), boundary values (radius exactly 3 cells, width exactly 1 / 2 cells, "
+        "centre at the resolvability margin of a non-periodic face, exactly on a periodic face / corner), image (float32, copied / "
+        "unpickled field, all-negative intensities, contrast 2^-20 ... 2^40 with offsets up to 1000 contrasts), options (threshold 'auto', numeric threshold and levels as "
+        "numpy scalar / 0-d array / int, tolerance and least_squares_params in refine_args -- the caller's dicts compared afterwards --, "
+        "minimal_radius 0 / negative / -inf / half the radius, interface_width start value, modes 2 / 3, num_processes 2, the same "
+        "call repeated on the same objects); all non-trivial (the candidate differs from the truth); distinct by the full case")
 
 RULES = ["extrema", "mean", "otsu", "numeric"]
 OPTS = ["supplied", "supplied+fitted", "auto+fitted"]
+
+# Input classes on which the UNCHANGED /repo fails the property text and whose status (defect of py-droplets or not) is not
+# decided yet: reported in the evidence notes, NOT judged.  (S3 "recovery depends on the intensity scale" was decided: defect
+# F34, repaired in /repo 01cb8f2, replay corpus/defects.py F34 -- contrasts 2^-20 ... 2^40 with offsets are judged now.)
+SUSPECTED: list[dict] = []
+
+
+def suspected(case: dict):
+    return None
+
+
+# ---- the dimension stream (notes/input_dimensions.md): one named recipe per case -------------------------------
+GRID_KINDS = ["negative", "centred", "cyl_flat", "cyl_dz_larger", "cyl_narrow", "inner_radius", "aniso_first_coarser",
+              "aniso_last_coarser", "periodic_first", "periodic_middle", "periodic_last"]
+BOUNDARY_KINDS = ["radius_3_cells", "width_1_cell", "width_2_cells", "radius_3_width_2", "touching_nonperiodic_margin",
+                  "on_periodic_face", "on_periodic_corner"]
+IMAGE_KINDS = ["float32", "field_copy", "field_pickle", "negative_contrast_offset", "large_scale", "small_scale", "small_scale",
+               "large_scale"]
+OPTION_KINDS = ["threshold_auto", "threshold_np.float64", "threshold_0d", "threshold_int", "levels_np.float64", "levels_0d", "levels_int",
+                "tolerance", "lsq_params", "tolerance+lsq_params", "minimal_radius_0", "minimal_radius_negative", "minimal_radius_-inf",
+                "minimal_radius_small", "interface_width_start", "modes_2", "modes_3", "num_processes_2", "repeated_call"]
 
 
 def refine_args(opt: str, a: float, b: float) -> dict:
@@ -108,32 +145,290 @@ def straddle(rng: random.Random, gs: dict, truth: dict) -> str:
     return "corner" if len(chosen) > 1 else f"axis{chosen[0]}"
 
 
+def meets_own_image(case: dict) -> bool:
+    """resolvability along periodic axes: the region above the LOWEST threshold any rule can choose (the mean or the mid-level
+    of the image) spans a whole periodic axis, i.e. the thresholded droplet touches its own periodic image -- the box is too
+    small for the droplet and its interface (found in the thorough tier: 12 cells for a droplet of 3 cells radius and 1.8 cells
+    width; fails on the tree before this audit as well).  Such a configuration is not a resolvable droplet."""
+    gs = case["grid"]
+    axes = rc.grid_axes(gs)
+    per = [i for i, a in enumerate(axes) if a[3]]
+    if not per:
+        return False
+    grid = rc.make_grid(gs)
+    data = np.asarray(rc.make_image(dict(case["image"], dtype="float64", field="fresh"), grid).data, float)
+    low = min(float(data.mean()), float(data.min() + data.max()) / 2)
+    mask = data > low
+    for i in per:
+        if mask.any(axis=tuple(a for a in range(mask.ndim) if a != i)).all():
+            return True
+    return False
+
+
+def resolvable_case(make, rng: random.Random, tries: int = 40) -> dict:
+    """the first case drawn by `make(rng)` whose thresholded droplet does not meet its own periodic image"""
+    for _ in range(tries):
+        case = make(rng)
+        if not meets_own_image(case):
+            case["redrawn"] = _
+            return case
+    raise RuntimeError("generator: no resolvable configuration in %d draws" % tries)
+
+
 def gen_single(rng: random.Random, k: int) -> dict:
-    fam = rc.FAMILIES[k % 6]
+    def make(rng):
+        fam = rc.FAMILIES[k % 6]
+        gs = gen_grid_c05(rng, fam)
+        truth = rc.gen_truth(rng, gs, "DiffuseDroplet", 0, resolvable=True)
+        how = straddle(rng, gs, truth) if rng.random() < 0.6 else "none"
+        isp = rc.gen_image_spec(rng, truth, ["clean", "affine"][(k // 6) % 2])
+        return {"grid": gs, "image": isp, "rule": RULES[(k // 12) % 4], "opt": OPTS[(k // 3) % 3], "straddles": how}
+    return resolvable_case(make, rng)
+
+
+def gen_dim_single(rng: random.Random, k: int) -> dict:
+    """k-th case of the dimension stream (redrawn until the thresholded droplet does not meet its own periodic image)"""
+    return resolvable_case(lambda r: _gen_dim_single(r, k), rng)
+
+
+def _gen_dim_single(rng: random.Random, k: int) -> dict:
+    """a single resolvable droplet; `case["dim"]` names what is exercised, `case["extra"]` holds further arguments of
+    locate_droplets / refine_droplet"""
+    group = ["grid", "boundary", "image", "options"][k % 4]
+    j = k // 4
+    rule, opt = RULES[j % 4], OPTS[(j // 2) % 3]
+    kind_img = ["clean", "affine"][j % 2]
+    extra: dict = {}
+    if group == "grid":
+        kind = GRID_KINDS[j % len(GRID_KINDS)]
+        h = rng.choice([0.5, 1.0, 0.75, 1.25])
+        if kind in ("negative", "centred"):
+            gs = gen_grid_c05(rng, rc.FAMILIES[[0, 1, 2, 5][(j // len(GRID_KINDS)) % 4]])
+            for b in (gs["bounds"] if gs["family"] == "cartesian" else [gs["bounds_z"]]):
+                L = b[1] - b[0]
+                lo = -L - rc.dy(rng, 0.25, 3) if kind == "negative" else -L / 2
+                b[0], b[1] = lo, lo + L
+        elif kind.startswith("cyl"):
+            if kind == "cyl_flat":
+                nr, nz, hz = rng.randint(24, 32), rng.randint(13, 16), h
+            elif kind == "cyl_dz_larger":
+                nr, nz, hz = rng.randint(12, 16), rng.randint(16, 20), h * 1.25
+            else:   # narrow, finely sliced (seeded change C05-3)
+                nr, nz, hz = rng.randint(9, 11), rng.randint(40, 52), h * rng.choice([0.5, 0.625])
+            z0 = rc.dy(rng, -4, 4)
+            gs = {"family": "cylindrical", "radius": nr * h, "bounds_z": [z0, z0 + nz * hz], "shape": [nr, nz], "periodic_z": rng.random() < 0.5}
+        elif kind == "inner_radius":
+            n = rng.randint(16, 24)
+            r0 = h * rng.choice([0.5, 1.0, 2.0])
+            gs = {"family": rng.choice(["polar", "spherical"]), "radius": [r0, r0 + n * h], "shape": n}
+        elif kind.startswith("aniso"):
+            d = rng.choice([2, 2, 3])
+            hs = [1.25 * h] + [h] * (d - 1)
+            ns = [rng.randint(18, 22)] + [rng.randint(22, 28) if d == 2 else rng.randint(14, 16) for _ in range(d - 1)]
+            if kind.endswith("last_coarser"):
+                hs, ns = hs[::-1], ns[::-1]
+            bounds = []
+            for n, hh in zip(ns, hs):
+                lo = rc.dy(rng, -4, 4)
+                bounds.append([lo, lo + n * hh])
+            gs = {"family": "cartesian", "bounds": bounds, "shape": ns, "periodic": [rng.random() < 0.5 for _ in range(d)]}
+        else:   # exactly one periodic axis: first / middle / last
+            gs = gen_grid_c05(rng, "cart3")
+            i = {"periodic_first": 0, "periodic_middle": 1, "periodic_last": 2}[kind]
+            gs["periodic"] = [a == i for a in range(3)]
+        truth = rc.gen_truth(rng, gs, "DiffuseDroplet", 0, resolvable=True)
+        how = straddle(rng, gs, truth) if kind.startswith("periodic") or rng.random() < 0.4 else "none"
+        return {"grid": gs, "image": rc.gen_image_spec(rng, truth, kind_img), "rule": rule, "opt": opt, "straddles": how, "dim": "grid:" + kind}
+    fam = rc.FAMILIES[(j // 3) % 6]
     gs = gen_grid_c05(rng, fam)
     truth = rc.gen_truth(rng, gs, "DiffuseDroplet", 0, resolvable=True)
-    how = straddle(rng, gs, truth) if rng.random() < 0.6 else "none"
-    isp = rc.gen_image_spec(rng, truth, ["clean", "affine"][(k // 6) % 2])
-    return {"grid": gs, "image": isp, "rule": RULES[(k // 12) % 4], "opt": OPTS[(k // 3) % 3], "straddles": how}
+    how = "none"
+    hs = rc.spacing(gs)
+    hm = sum(hs) / len(hs)
+    if group == "boundary":
+        kind = BOUNDARY_KINDS[j % len(BOUNDARY_KINDS)]
+        if kind in ("on_periodic_face", "on_periodic_corner"):
+            # the box holds the droplet, its interface and the thresholded region of every rule without self-overlap across
+            # the periodic faces: every periodic extent >= 2 (radius + 2 widths + 2 cells) = 16 cells
+            famb = (["cart2", "cart3", "cart1", "cylindrical"][(j // len(BOUNDARY_KINDS)) % 4] if kind.endswith("face") else
+                    ["cart2", "cart3"][(j // len(BOUNDARY_KINDS)) % 2])
+            h = rng.choice([0.5, 1.0, 0.75, 1.25])
+            if famb == "cylindrical":
+                z0 = rc.dy(rng, -4, 4)
+                nr, nz = rng.randint(10, 12), rng.randint(18, 26)
+                gs = {"family": "cylindrical", "radius": nr * h, "bounds_z": [z0, z0 + nz * h], "shape": [nr, nz], "periodic_z": True}
+            else:
+                d = int(famb[4])
+                ns = {1: [rng.randint(18, 30)], 2: [rng.randint(18, 22), rng.randint(30, 40)], 3: [rng.randint(16, 18), rng.randint(16, 18), rng.randint(22, 26)]}[d]
+                rng.shuffle(ns)
+                bounds = []
+                for n in ns:
+                    lo = rc.dy(rng, -4, 4)
+                    bounds.append([lo, lo + n * h])
+                gs = {"family": "cartesian", "bounds": bounds, "shape": ns, "periodic": [True] * d}
+            truth = {"cls": "DiffuseDroplet", "position": [0.0] * (3 if famb == "cylindrical" else d), "radius": rng.uniform(3.0, 3.5) * h,
+                     "width": rng.uniform(1.0, 1.25) * h}
+            for i, (lo, hi, n, per) in enumerate(rc.grid_axes(gs) if famb != "cylindrical" else []):
+                truth["position"][i] = rng.uniform(lo, hi)
+            if famb == "cylindrical":
+                truth["position"][2] = rng.uniform(*gs["bounds_z"])
+            axes = rc.grid_axes(gs)
+            idx = {i: i for i in range(len(axes))} if gs["family"] == "cartesian" else {1: 2}
+            for i in (list(idx) if kind.endswith("corner") else [rng.choice(list(idx))]):
+                truth["position"][idx[i]] = axes[i][0]           # exactly on the (lower = upper) periodic face
+            how = "exactly on corner" if kind.endswith("corner") else "exactly on face"
+        else:
+            if "radius_3" in kind:
+                truth["radius"] = 3.0 * max(hs)
+            if kind == "width_1_cell":
+                truth["width"] = 1.0 * hm
+            if kind in ("width_2_cells", "radius_3_width_2"):
+                truth["width"] = 2.0 * hm
+            if kind == "touching_nonperiodic_margin":
+                # the centre as close to a non-periodic face as the resolvability assumption allows (radius + 2 w + 2 cells)
+                axes = rc.grid_axes(gs)
+                pairs = ([(i, i) for i, a in enumerate(axes) if not a[3]] if gs["family"] == "cartesian" else
+                         ([(1, 2)] if gs["family"] == "cylindrical" and not axes[1][3] else []))
+                for i, ip in pairs[:1] if pairs else []:
+                    pad = truth["radius"] + 2 * truth["width"] + 2 * hs[i]
+                    if axes[i][0] + pad < axes[i][1] - pad:
+                        truth["position"][ip] = axes[i][0] + pad if rng.random() < 0.5 else axes[i][1] - pad
+        return {"grid": gs, "image": rc.gen_image_spec(rng, truth, kind_img), "rule": rule, "opt": opt, "straddles": how, "dim": "boundary:" + kind}
+    isp = rc.gen_image_spec(rng, truth, kind_img)
+    if group == "image":
+        kind = IMAGE_KINDS[j % len(IMAGE_KINDS)]
+        if kind == "float32":
+            isp["dtype"] = "float32"
+        elif kind == "field_copy":
+            isp["field"] = "copy"
+        elif kind == "field_pickle":
+            isp["field"] = "pickle"
+        elif kind == "negative_contrast_offset":       # all intensities negative
+            isp["kind"], isp["a"], isp["b"] = "affine", rng.choice([0.5, 2.0]), rng.choice([-8.0, -3.0])
+        elif kind in ("large_scale", "small_scale"):
+            # contrasts 2^-20 ... 2^40 with offsets up to 1000 contrasts, every level option (defect F34, repaired)
+            isp["kind"] = "affine"
+            isp["a"] = 2.0 ** rng.choice([10, 16, 20, 30, 40] if kind == "large_scale" else [-4, -6, -8, -10, -14, -20])
+            isp["b"] = isp["a"] * rng.choice([0.0, 0.25, -1.0, 4.0, 1000.0, -1000.0])
+            opt = OPTS[(j // len(IMAGE_KINDS)) % 3]
+        return {"grid": gs, "image": isp, "rule": rule, "opt": opt, "straddles": how, "dim": "image:" + kind}
+    kind = OPTION_KINDS[j % len(OPTION_KINDS)]
+    if kind.startswith("threshold_"):
+        if kind == "threshold_auto":
+            rule = "auto"
+        else:
+            rule, extra["thr_type"] = "numeric", kind.split("_", 1)[1]
+            if extra["thr_type"] == "int":
+                isp["kind"], isp["a"], isp["b"] = "affine", rng.choice([2.0, 4.0]), rng.choice([-1.0, 5.0, 0.0])
+    elif kind.startswith("levels_"):
+        extra["vtype"] = kind.split("_", 1)[1]
+        opt = OPTS[j % 2]          # levels supplied
+        if extra["vtype"] == "int":
+            isp["kind"], isp["a"], isp["b"] = "affine", rng.choice([2.0, 3.0]), rng.choice([-1.0, 5.0, 0.0])
+    elif kind == "tolerance":
+        extra["tolerance"] = rng.choice([1e-10, 1e-12, 1e-9])
+    elif kind == "lsq_params":
+        extra["lsq_params"] = rng.choice([{}, {"method": "trf"}, {"method": "dogbox"}, {"x_scale": "jac"}, {"jac": "3-point"}, {"max_nfev": 200}])
+    elif kind == "tolerance+lsq_params":
+        extra["tolerance"] = 1e-10
+        extra["lsq_params"] = rng.choice([{"ftol": 1e-9}, {"xtol": 1e-11, "gtol": 1e-11}, {"method": "trf", "max_nfev": 300}])
+    elif kind.startswith("minimal_radius"):
+        extra["minimal_radius"] = {"0": 0, "negative": -1.0, "-inf": -math.inf, "small": 0.5 * truth["radius"]}[kind.split("_", 2)[2]]
+    elif kind == "interface_width_start":
+        extra["interface_width_cells"] = rng.choice([1.0, 1.5, 2.0])
+    elif kind.startswith("modes_"):
+        extra["modes"] = int(kind[-1])
+        if fam in ("cart1", "polar", "spherical"):
+            # perturbed classes need dimension >= 2; on polar / spherical grids the image depends on the distance only, so the
+            # amplitudes are degenerate with the radius (the fit may return radius (1 + a) with amplitude a): not part of the claim
+            gs = gen_grid_c05(rng, ["cart2", "cart3", "cylindrical"][j % 3])
+            truth = rc.gen_truth(rng, gs, "DiffuseDroplet", 0, resolvable=True)
+            isp = rc.gen_image_spec(rng, truth, kind_img)
+    elif kind == "num_processes_2":
+        extra["num_processes"] = 2
+    elif kind == "repeated_call":
+        extra["repeat"] = True
+    return {"grid": gs, "image": isp, "rule": rule, "opt": opt, "straddles": how, "dim": "options:" + kind, "extra": extra}
 
 
 def gen_emulsion(rng: random.Random, k: int) -> dict:
+    """two well-separated droplets (interface gap >= 10 widths) side by side along the long axis: Cartesian 2-d (most), 1-d,
+    3-d, and along the axis of a cylinder; the box starts at a random (also negative) origin"""
     h = rng.choice([0.5, 1.0, 1.25])
+    fam = ["cart2", "cart2", "cart1", "cart2", "cylindrical", "cart2", "cart2", "cart3"][k % 8]
     nx, ny = rng.randint(44, 52), rng.randint(22, 26)
-    per = [rng.random() < 0.5, rng.random() < 0.5]
-    gs = {"family": "cartesian", "bounds": [[0.0, nx * h], [0.0, ny * h * rng.choice([1.0, 1.125])]], "shape": [nx, ny], "periodic": per}
     w = rng.uniform(1.0, 1.25) * h
     r1, r2 = rng.uniform(3.0, 4.5) * h, rng.uniform(3.0, 4.5) * h
-    Ly = gs["bounds"][1][1]
-    x1 = rng.uniform(9.5, 11.0) * h
+    x0 = rc.dy(rng, -4, 4) if k % 3 else -nx * h - rc.dy(rng, 0.25, 3)      # a third of the boxes has only negative x
+    x1 = x0 + rng.uniform(9.5, 11.0) * h
     gap = rng.uniform(10.0, 12.0) * w
     x2 = x1 + r1 + r2 + gap
-    t = [{"cls": "DiffuseDroplet", "position": [x1, Ly / 2 + rng.uniform(-1, 1) * h], "radius": r1, "width": w},
-         {"cls": "DiffuseDroplet", "position": [x2, Ly / 2 + rng.uniform(-1, 1) * h], "radius": r2, "width": w}]
+    if fam == "cart1":
+        gs = {"family": "cartesian", "bounds": [[x0, x0 + nx * h]], "shape": [nx], "periodic": [rng.random() < 0.5]}
+        pos = [[x1], [x2]]
+    elif fam == "cylindrical":
+        nr = rng.randint(10, 13)
+        gs = {"family": "cylindrical", "radius": nr * h, "bounds_z": [x0, x0 + nx * h], "shape": [nr, nx], "periodic_z": rng.random() < 0.5}
+        pos = [[0.0, 0.0, x1], [0.0, 0.0, x2]]
+    else:
+        d = int(fam[4])
+        per = [rng.random() < 0.5 for _ in range(d)]
+        y0 = rc.dy(rng, -4, 4)
+        Ly = ny * h * rng.choice([1.0, 1.125])
+        if d == 3:
+            ny = rng.randint(20, 22)
+            Ly = ny * h
+        bounds = [[x0, x0 + nx * h]] + [[y0, y0 + Ly] for _ in range(d - 1)]
+        gs = {"family": "cartesian", "bounds": bounds, "shape": [nx] + [ny] * (d - 1), "periodic": per}
+        pos = [[x] + [y0 + Ly / 2 + rng.uniform(-1, 1) * h for _ in range(d - 1)] for x in (x1, x2)]
+    t = [{"cls": "DiffuseDroplet", "position": p_, "radius": r_, "width": w} for p_, r_ in zip(pos, (r1, r2))]
     isp = {"kind": ["clean", "affine"][k % 2], "truth": t, "a": 1.0, "b": 0.0, "sigma": 0.0, "nseed": 0}
     if k % 2:
         isp["a"], isp["b"] = rng.choice([0.5, 2.0]), rng.choice([-1.0, 2.0])
     return {"grid": gs, "image": isp, "rule": RULES[(k // 2) % 4], "opt": OPTS[k % 3]}
+
+
+def count_dimensions(ctx, case: dict):
+    """evidence: where the case lies along the dimensions of notes/input_dimensions.md"""
+    gs, isp, x = case["grid"], case["image"], case.get("extra") or {}
+    axes, hs = rc.grid_axes(gs), rc.spacing(gs)
+    ctx.count("dimension_recipe", case.get("dim", "(single / emulsion stream)"))
+    if "redrawn" in case:
+        ctx.count("redrawn_until_resolvable_along_periodic_axes", case["redrawn"])
+    real = axes if gs["family"] != "cylindrical" else [axes[1]]
+    if gs["family"] in ("cartesian", "cylindrical"):
+        ctx.count("grid_origin", "entirely negative" if all(a[1] <= 0 for a in real) else "entirely positive" if all(a[0] > 0 for a in real)
+                  else "centred" if all(a[0] == -a[1] for a in real) else "contains 0")
+    if len(axes) > 1:
+        ctx.count("spacing_order", "first axis coarser" if hs[0] > hs[-1] else "last axis coarser" if hs[0] < hs[-1] else "equal")
+    if gs["family"] == "cylindrical":
+        t = isp["truth"][0]
+        ctx.count("cylinder_shape", "droplet longer in z-cells than the grid has radial cells" if 2 * t["radius"] / hs[1] > axes[0][2] else
+                  "flat (fewer z-cells than radial cells)" if axes[1][2] < axes[0][2] else "regular")
+        ctx.count("cylinder_dz_vs_dr", "dz > dr" if hs[1] > hs[0] else "dz < dr" if hs[1] < hs[0] else "dz = dr")
+    if gs["family"] in ("polar", "spherical"):
+        ctx.count("inner_radius", "> 0" if axes[0][0] > 0 else "0")
+    if gs["family"] == "cartesian" and len(axes) == 3 and sum(gs["periodic"]) == 1:
+        ctx.count("single_periodic_axis_of_3", ["first", "middle", "last"][gs["periodic"].index(True)])
+    for t in isp["truth"]:
+        hm = sum(hs) / len(hs)
+        ctx.count("radius_in_cells", "exactly 3" if t["radius"] == 3.0 * max(hs) else "3-5" if t["radius"] < 5 * max(hs) else "> 5")
+        ctx.count("width_in_cells", "exactly 1" if t["width"] == hm else "exactly 2" if t["width"] == 2 * hm else "between 1 and 2")
+    ctx.count("image_dtype", isp.get("dtype", "float64"))
+    ctx.count("image_field_provenance", isp.get("field", "fresh"))
+    ctx.count("intensity_contrast", "2^30 .. 2^40" if abs(isp["a"]) >= 2.0 ** 30 else "2^10 .. 2^20" if abs(isp["a"]) >= 1024 else
+              "2^-20 .. 2^-10" if abs(isp["a"]) <= 2.0 ** -10 else "2^-8 .. 2^-4" if abs(isp["a"]) < 0.25 else "0.25 .. 3")
+    ctx.count("intensity_offset_in_contrasts", "|b| = 1000 a" if abs(isp["b"]) >= 999 * abs(isp["a"]) else "|b| <= 20 a")
+    ctx.count("intensity_sign", "all negative" if isp["a"] + isp["b"] < 0 and isp["b"] < 0 else "min negative" if isp["b"] < 0 else "non-negative")
+    ctx.count("threshold_type", x.get("thr_type", "float") if case["rule"] == "numeric" else "str")
+    ctx.count("level_numeric_type", x.get("vtype", "float") if case["opt"] != "auto+fitted" else "None")
+    ctx.count("tolerance", x.get("tolerance"))
+    ctx.count("least_squares_params", "None" if x.get("lsq_params") is None else "{" + ",".join(sorted(x["lsq_params"])) + "}")
+    ctx.count("minimal_radius", x.get("minimal_radius", "default") if not isinstance(x.get("minimal_radius"), float) or x["minimal_radius"] <= 0 else "0.5 radius")
+    ctx.count("interface_width_argument", "default None" if "interface_width_cells" not in x else f"{x['interface_width_cells']} cells")
+    ctx.count("modes", x.get("modes", 0))
+    ctx.count("num_processes", x.get("num_processes", 1))
+    ctx.count("call_repeated_on_same_objects", bool(x.get("repeat")))
 
 
 def errors(gs: dict, found: dict, truth: dict, h: float) -> tuple[float, float, float]:
@@ -153,27 +448,92 @@ def errors(gs: dict, found: dict, truth: dict, h: float) -> tuple[float, float, 
             abs(found["width"] - truth["width"]) / truth["width"])
 
 
+def threshold_of(case: dict):
+    a, b = case["image"]["a"], case["image"]["b"]
+    if case["rule"] != "numeric":
+        return case["rule"]
+    thr = b + a / 2
+    tt = (case.get("extra") or {}).get("thr_type", "float")
+    if tt == "np.float64":
+        return np.float64(thr)
+    if tt == "0d":
+        return np.array(thr)
+    if tt == "int":
+        assert float(thr).is_integer()
+        return int(thr)
+    return thr
+
+
+def locate_kwargs(case: dict, grid) -> dict:
+    """keyword arguments of locate_droplets for the case (refine=True)"""
+    a, b = case["image"]["a"], case["image"]["b"]
+    x = case.get("extra") or {}
+    ra = refine_args(case["opt"], a, b)
+    if x.get("vtype"):
+        ra["vmin"], ra["vmax"] = rc.typed_level(ra["vmin"], x["vtype"]), rc.typed_level(ra["vmax"], x["vtype"])
+    if x.get("tolerance") is not None:
+        ra["tolerance"] = x["tolerance"]
+    if x.get("lsq_params") is not None:
+        ra["least_squares_params"] = json.loads(json.dumps(x["lsq_params"]))
+    kw = {"refine": True, "refine_args": ra}
+    for key in ("minimal_radius", "modes", "num_processes"):
+        if key in x:
+            kw[key] = x[key]
+    if "interface_width_cells" in x:
+        kw["interface_width"] = x["interface_width_cells"] * float(grid.typical_discretization)
+    return kw
+
+
 def run_locate(case: dict):
-    """-> (list of returned droplet specs, recorded least_squares calls, threshold used)"""
+    """-> (list of returned droplet specs, recorded least_squares calls, threshold used, grid, image, state failures)"""
+    import copy
     from droplets.image_analysis import locate_droplets
     grid = rc.make_grid(case["grid"])
     img = rc.make_image(case["image"], grid)
-    a, b = case["image"]["a"], case["image"]["b"]
-    thr = case["rule"] if case["rule"] != "numeric" else b + a / 2
+    before = np.array(img.data, copy=True)
+    thr = threshold_of(case)
+    kw = locate_kwargs(case, grid)
+    kw_before = copy.deepcopy(kw)
     with rc.Instrument() as ins:
-        em = locate_droplets(img, threshold=thr, refine=True, refine_args=refine_args(case["opt"], a, b))
-    return [rc.droplet_spec(d) for d in em], ins.calls, thr, grid, img
+        em = locate_droplets(img, threshold=thr, **kw)
+    state = []
+    if not (np.array_equal(before, img.data) and img.data.dtype == before.dtype):
+        state.append("the image was modified by locate_droplets")
+    if repr(kw) != repr(kw_before):
+        state.append(f"the caller's arguments {kw_before} became {kw}")
+    found = [rc.droplet_spec(d) for d in em]
+    if (case.get("extra") or {}).get("repeat"):
+        # the same field and the same option objects once more: the result must be the same
+        em2 = locate_droplets(img, threshold=thr, **kw)
+        if [rc.droplet_spec(d) for d in em2] != found:
+            state.append(f"a second identical call returned {[rc.droplet_spec(d) for d in em2]}, the first {found}")
+    return found, ins.calls, thr, grid, img, state
 
 
 def c05_oracle(case: dict) -> tuple[list[dict], list[tuple[float, float, float]], list]:
     """failures of the property text on one case; the measured errors; the recorded calls"""
     fails, errs = [], []
     try:
-        found, calls, thr, grid, img = run_locate(case)
+        found, calls, thr, grid, img, state = run_locate(case)
     except Exception as e:  # noqa
         return [{"what": f"locate_droplets(refine=True) raised {type(e).__name__}: {e}"[:300]}], [], []
+    for s_ in state:
+        fails.append({"what": s_[:400]})
     truths = case["image"]["truth"]
     h = float(grid.typical_discretization)
+    want_cls = "DiffuseDroplet"
+    nm = (case.get("extra") or {}).get("modes", 0)
+    if nm > 0:
+        want_cls = {2: "PerturbedDroplet2D", 3: "PerturbedDroplet3D"}[rc.grid_dim(case["grid"])]
+        if case["grid"]["family"] == "cylindrical":
+            want_cls = "PerturbedDroplet3DAxisSym"
+    for f_ in found:
+        vals = list(f_["position"]) + [f_["radius"]] + ([f_["width"]] if f_.get("width") is not None else []) + list(f_.get("amplitudes") or [])
+        if not all(isinstance(v, float) and math.isfinite(v) for v in vals):
+            fails.append({"what": f"a returned droplet has non-finite entries: {f_}"})
+            return fails, errs, calls
+        if f_["cls"] != want_cls:
+            fails.append({"what": f"a returned droplet has class {f_['cls']}, expected {want_cls} (modes={nm})"})
     if len(found) != len(truths):
         fails.append({"what": f"{len(found)} droplet(s) returned for {len(truths)} original(s)"})
         return fails, errs, calls
@@ -190,6 +550,11 @@ def c05_oracle(case: dict) -> tuple[list[dict], list[tuple[float, float, float]]
             fails.append({"what": "a returned droplet has no interface width"})
             continue
         used.add(best[0])
+        if nm > 0:
+            # with perturbation modes the fitted centre is degenerate with the amplitudes of the first mode (a first-order
+            # translation): radius and width are judged, the position error is only measured (evidence key below)
+            case["_position_error_with_modes"] = best[1][0]
+            best = (best[0], (0.0, best[1][1], best[1][2]))
         errs.append(best[1])
         if not max(best[1]) < TOL:
             fails.append({"what": f"relative errors (position/cell, radius, width) = {best[1]} exceed {TOL}: original {t}, returned {found[best[0]]}"})
@@ -199,12 +564,21 @@ def c05_oracle(case: dict) -> tuple[list[dict], list[tuple[float, float, float]]
 # -----------------------------------------------------------------------------------------
 # (b) sample goals: the generated residual expression against the residual entries of the implementation
 # -----------------------------------------------------------------------------------------
+class SampleMismatch(Exception):
+    pass
+
+
 def sample_goal_list(rng: random.Random, n: int):
     from droplets.tools import spherical
     goals, info = [], []
     k = 0
+    mismatch = None
     while len(goals) < n:
         k += 1
+        if k > 6 * n + 30:
+            # the residual built from the generated expression's ingredients does not reproduce the cost the implementation
+            # reports at its start vector: the translation is no longer validated -- say so instead of searching forever
+            raise SampleMismatch(mismatch or "no refinement case could be sampled")
         fam = ["cart1", "cart2", "cart3"][k % 3]
         gs = rc.gen_grid(rng, fam)
         gs["periodic"] = [False] * len(gs["shape"])
@@ -226,9 +600,13 @@ def sample_goal_list(rng: random.Random, n: int):
         dist = spherical.polar_coordinates(grid, origin=np.array(prom["position"], float), ret_angle=False)[region]
         field = d._get_phase_field(grid)[region]
         vmin, vmax = rc.effective_levels(case, rec)
-        vrng = vmax - vmin
+        sc = rc.level_scale(vmax - vmin)         # intensities in units of the intensity range (repair F34)
+        vmin, vrng = vmin / sc, (vmax - vmin) / sc
+        image = image / sc
         res = vmin + vrng * field - image[region]
         if not math.isclose(0.5 * float(res @ res), call["cost0"], rel_tol=1e-9, abs_tol=1e-300):
+            mismatch = {"what": f"the residual vmin + vrng * profile - image over the fit region (in units of the intensity range) gives the "
+                                f"cost {0.5 * float(res @ res)!r}, least_squares was started at cost {call['cost0']!r}", "input": case}
             continue
         idx = sorted(range(res.size), key=lambda i: abs(abs(field[i] - 0.5) - 0.2))[:2]   # cells inside the interface
         for i in idx:
@@ -247,8 +625,17 @@ def check(ctx: vlib.Ctx) -> int:
     ok, fresh = rc.prove_with_fallback(ctx, ["Proofs/C05.vo", "Proofs/C05Metric.vo", "Proofs/RefineCand.vo", "Model/Samples.vo"],
                                        ["Gen_refine", "Gen_refine_R", "Gen_shapes"])
     # (b) sample goals
+    sample_violation = None
     if ok:
-        goals, info = sample_goal_list(random.Random(ctx.seed + 1), ctx.scale(16, 48))
+        try:
+            goals, info = sample_goal_list(random.Random(ctx.seed + 1), ctx.scale(16, 48))
+        except SampleMismatch as e:
+            goals, info = [], []
+            mm = e.args[0] if isinstance(e.args[0], dict) else {"what": str(e.args[0]), "input": None}
+            ctx.broken.append("sample goals: " + mm["what"][:300])
+            sample_violation = {"what": "translator validation: " + mm["what"], "stream": "sample goals",
+                                "input": json.loads(json.dumps(mm["input"])), "found": True}
+    if ok and goals:
         ctx.sample({"sample_goal": goals[0][1][:300], "impl_value": goals[0][2]})
         req = "From Coq Require Import Reals.\nFrom PD Require Import Gen.Gen_shapes Gen.Gen_refine_R."
         from concurrent.futures import ThreadPoolExecutor
@@ -260,9 +647,14 @@ def check(ctx: vlib.Ctx) -> int:
     n_single = ctx.scale(720, 4800) if not ctx.broken else ctx.scale(1080, 6000)
     n_em = ctx.scale(48, 240)
     cases = [("single", gen_single(rng, k)) for k in range(n_single)] + [("emulsion", gen_emulsion(rng, k)) for k in range(n_em)]
+    # the dimension stream (notes/input_dimensions.md), its own PRNG so that the two streams above are unchanged
+    rng_d = random.Random(ctx.seed + 2)
+    n_dim = ctx.scale(240, 1600) if not ctx.broken else ctx.scale(360, 2400)
+    cases += [("dimensions", gen_dim_single(rng_d, k)) for k in range(n_dim)]
     all_err, fails, spec, fits = [], [], [], 0
     worst = []
     lits, lit_cases = [], []
+    suspected_seen: dict = {}
     for k, (tag, case) in enumerate(cases):
         f, errs, calls = c05_oracle(case)
         gs = case["grid"]
@@ -278,6 +670,16 @@ def check(ctx: vlib.Ctx) -> int:
         ctx.count("threshold_rule", case["rule"])
         ctx.count("intensities", case["opt"])
         ctx.count("droplets", len(case["image"]["truth"]))
+        count_dimensions(ctx, case)
+        if "_position_error_with_modes" in case:
+            pe = case.pop("_position_error_with_modes")
+            ctx.count("position_error_per_cell_with_modes>0 (measured, not judged)", "< 1e-4" if pe < 1e-4 else "< 1e-2" if pe < 1e-2 else ">= 1e-2")
+        sus = suspected(case)
+        if sus is not None:
+            ctx.count("suspected_not_judged", f"{sus['id']}: {'fails' if f else 'holds'}")
+            if f and sus["id"] not in suspected_seen:
+                suspected_seen[sus["id"]] = (sus, f[0], json.loads(json.dumps(case)))
+            errs, f = [], []
         fits += len(calls)
         for c in calls:
             for s in rc.lsq_spec_failures(c):
@@ -288,21 +690,24 @@ def check(ctx: vlib.Ctx) -> int:
         for x in f:
             fails.append({"what": x["what"], "stream": tag, "input": json.loads(json.dumps(case))})
         # (c) per-candidate correspondence on a third of the single-droplet cases
-        if ok and tag == "single" and k % 3 == 0 and not f:
+        if ok and tag in ("single", "dimensions") and k % 3 == 0 and not f and (case.get("extra") or {}).get("num_processes", 1) == 1:
             from droplets.image_analysis import locate_droplets
             grid = rc.make_grid(gs)
             img = rc.make_image(case["image"], grid)
             a, b = case["image"]["a"], case["image"]["b"]
-            thr = case["rule"] if case["rule"] != "numeric" else b + a / 2
-            cands = [rc.droplet_spec(d) for d in locate_droplets(img, threshold=thr, refine=False)]
+            thr = threshold_of(case)
+            kw = locate_kwargs(case, grid)
+            cands = [rc.droplet_spec(d) for d in locate_droplets(img, threshold=thr, **{**{k_: v for k_, v in kw.items() if k_ != "refine_args"}, "refine": False})]
             ra = refine_args(case["opt"], a, b)
+            x = case.get("extra") or {}
             outs = []
             for cs in cands:
                 # hypotheses of C05_candidate_feasible (`located`)
                 if not (cs["radius"] > 0 and float(grid.typical_discretization) > 0):
                     fails.append({"what": f"candidate {cs} is not a located candidate (radius > 0, spacing > 0)", "stream": tag, "input": case})
                 rcase = {"grid": gs, "image": case["image"], "candidate": cs, "vmin": ra["vmin"], "vmax": ra["vmax"],
-                         "adjust": bool(ra.get("adjust_values"))}
+                         "adjust": bool(ra.get("adjust_values")), "tolerance": x.get("tolerance"), "lsq_params": x.get("lsq_params"),
+                         "vtype": x.get("vtype")}
                 rec = rc.run_refine(rcase)
                 fits += len(rec["calls"])
                 for c in rec["calls"]:
@@ -313,7 +718,7 @@ def check(ctx: vlib.Ctx) -> int:
                     lits.append(lit)
                     lit_cases.append(rcase)
                 outs.append(rec["out"])
-            found, _, _, _, _ = run_locate(case)
+            found = run_locate(case)[0]
             if sorted(json.dumps(o, sort_keys=True) for o in outs) != sorted(json.dumps(o, sort_keys=True) for o in found):
                 fails.append({"what": f"locate_droplets(refine=True) returned {found}, refining its candidates one by one gives {outs}",
                               "stream": tag, "input": case})
@@ -355,7 +760,14 @@ def check(ctx: vlib.Ctx) -> int:
             ctx.violations.append({**f, "found": True, "broken": ctx.broken[:3]})
     for s in spec[:1]:
         ctx.violations.append({"what": s["what"], "input": s["input"], "found": True, "broken": ctx.broken[:3]})
+    if sample_violation is not None and len(ctx.violations) < 10:
+        ctx.violations.append({**sample_violation, "broken": ctx.broken[:3]})
     ctx.extra["oracle_failures_total"] = len(fails)
+    for sid in sorted(suspected_seen):
+        sus, f0, case = suspected_seen[sid]
+        ctx.notes.append(f"SUSPECTED {sid} (reported, not judged; {ctx.hist.get('suspected_not_judged', {})}): {sus['what']} -- e.g. "
+                         f"{f0['what'][:200]} on input {json.dumps(case)[:600]}")
+    ctx.extra["suspected"] = [{"id": e["id"], "condition": e["condition"]} for e in SUSPECTED]
     return vlib.finish(ctx, "", TRUSTED, ASSUME, RULE)
 
 
